@@ -590,11 +590,42 @@ class TRope(Rope):
         raise Unsupported('rstrip on abstract text')
 
     def isdigit(self):
-        raise Unsupported('isdigit on abstract text')
+        from . import models
+        return models.rope_isdigit(self)
+
+    def isnumeric(self):
+        return self.isdigit()
 
 
 class BRope(Rope):
     kind = 'b'
+
+    def __iter__(self):
+        """byte values (ints / SInt); only for short ropes -- used by code such as any(prefix)"""
+        out = []
+        ex = core.cur()
+        for p in nonempty_pieces(self):
+            L = p.length()
+            if not isinstance(L, int):
+                L = ex.concretize(L, limit=20)
+            if L > 16:
+                raise Unsupported('iteration over a long abstract byte string')
+            if isinstance(p, Lit):
+                out.extend(p.v[:L])
+            elif isinstance(p, Fill):
+                out.extend([p.ch[0]] * L)
+            elif isinstance(p, Opq):
+                out.extend(p.src.peek(p.lo + i, p.chain) for i in range(L))
+            else:
+                base, a = (p.base, p.a) if isinstance(p, Frag) else (p, 0)
+                if isinstance(base, U32) and base.fmt in ('>I', '!I') and not getattr(p, 'chain', ()):
+                    if not isinstance(a, int):
+                        a = ex.concretize(a, limit=6)
+                    for i in range(a, a + L):
+                        out.append((base.n // (256 ** (3 - i))) % 256 if not isinstance(base.n, int) else (base.n >> (8 * (3 - i))) & 255)
+                else:
+                    raise Unsupported('iteration over %s' % type(base).__name__)
+        return iter(out)
 
     def decode(self, encoding='utf-8', errors='strict'):
         return self._recode('d', encoding, 't')
@@ -906,16 +937,26 @@ def concretize_source(src, ev):
         data = bytearray(''.join(txt).encode('latin_1'))
         # numerals that the code parsed out of this source (nondeterministic int() outcomes), written back as text
         for chain, d in src.derived.items():
+            for (lo, hi) in getattr(d, 'isdig', {}):
+                if (lo, hi) not in d.ints:
+                    d.ints[(lo, hi)] = (False, 0)
             for (lo, hi), (ok, val) in d.ints.items():
                 a, b = ev(lo), ev(hi)
                 w = b - a
                 if w <= 0 or a < 0 or b > n:
                     continue
+                dg = getattr(d, 'isdig', {}).get((lo, hi))
+                dgv = None if dg is None else ev(dg)
                 if ev(ok):
                     v = ev(val)
-                    t = ('-' + format(-v, '0%d' % (w - 1))) if v < 0 else format(v, '0%d' % w)
+                    if v < 0:
+                        t = '-' + format(-v, '0%d' % (w - 1))
+                    elif dgv is False:
+                        t = '+' + format(v, '0%d' % (w - 1))
+                    else:
+                        t = format(v, '0%d' % w)
                 else:
-                    t = 'x' * w
+                    t = ('\xb2' if dgv else 'x') * w      # superscript two: isdigit() is True, int() fails
                 try:
                     enc = t
                     for op, c in reversed(chain):
@@ -938,6 +979,12 @@ def concretize_source(src, ev):
             p = ev(pos)
             if 0 <= p < n and not chain:
                 txt[p] = chr(ev(v))
+            elif 0 <= p < n and len(chain) == 1 and chain[0][0] == 'e':
+                # a byte of the encoded form was inspected: write the character that encodes to it
+                try:
+                    txt[p] = bytes([ev(v)]).decode(chain[0][1])
+                except Exception:
+                    pass
         out = ''.join(txt)
     return out
 
